@@ -650,12 +650,13 @@ func (p *Pager) RunRollbackTx(prev *Image, tx Tx, jm JournalMode, outcome Rollba
 		segs = [][]uint32{recs[:tx.JournalSplit], recs[tx.JournalSplit:]}
 	}
 	off := int64(0)
-	for _, seg := range segs {
+	for si, seg := range segs {
+		nonce := p.Nonce + uint32(si)*0x9e3779b9 // SQLite draws a fresh checksum nonce for every journal header
 		hdrOff := off
 		hdr := make([]byte, sectorSize)
 		copy(hdr, "\xd9\xd5\x05\xf9\x20\xa1\x63\xd7")
 		binary.BigEndian.PutUint32(hdr[8:], 0) // nRec, rewritten at sync
-		binary.BigEndian.PutUint32(hdr[12:], p.Nonce)
+		binary.BigEndian.PutUint32(hdr[12:], nonce)
 		binary.BigEndian.PutUint32(hdr[16:], uint32(len(prev.Pages)))
 		binary.BigEndian.PutUint32(hdr[20:], uint32(sectorSize))
 		binary.BigEndian.PutUint32(hdr[24:], uint32(ps))
@@ -676,7 +677,7 @@ func (p *Pager) RunRollbackTx(prev *Image, tx Tx, jm JournalMode, outcome Rollba
 				unlockAll()
 				return err
 			}
-			binary.BigEndian.PutUint32(b4[:], journalChecksum(pre, p.Nonce))
+			binary.BigEndian.PutUint32(b4[:], journalChecksum(pre, nonce))
 			if err := db.WriteJournalAt(ctx, jf, b4[:], off+4+int64(ps), o); err != nil {
 				unlockAll()
 				return err
